@@ -1237,7 +1237,11 @@ static void union_initializer(Token **rest, Token *tok, Initializer *init) {
 //             | struct-initializer | union-initializer
 //             | assign
 static void initializer2(Token **rest, Token *tok, Initializer *init) {
-  if (init->ty->kind == TY_ARRAY && tok->kind == TK_STR) {
+  // A string literal initializes an array of an integer type as a
+  // whole. For any other array (e.g. an array of pointers or an array
+  // of arrays whose braces are omitted) it initializes the first
+  // element as usual.
+  if (init->ty->kind == TY_ARRAY && tok->kind == TK_STR && is_integer(init->ty->base)) {
     string_initializer(rest, tok, init);
     return;
   }
